@@ -1,6 +1,7 @@
 package rules
 
 import (
+	"fmt"
 	"go/token"
 	"go/types"
 	"strings"
@@ -577,6 +578,32 @@ func ruleBucketBound(r *core.Reporter) {
 				r.Violated(key, p.InstrPos(in), "a path inserts a bucket without passing the size test")
 				return
 			}
+			// the size is read in the critical section of the insertion: between len(buckets) and the insert the
+			// manager's mutex is never released (a stale "not full yet" lets concurrent misses all insert)
+			if lc, isC := bound.Atom.Y.(*ssa.Call); isC {
+				unlocks := func(x ssa.Instruction) bool {
+					cc := ir.AsCall(x)
+					if cc == nil || !(ir.IsCallTo(x, "(*sync.Mutex).Unlock") || ir.IsCallTo(x, "(*sync.RWMutex).Unlock")) {
+						return false
+					}
+					if _, isDefer := x.(*ssa.Defer); isDefer {
+						return false
+					}
+					_, f, okf := ir.FieldOf(cc.Args[0])
+					return okf && f == "mu"
+				}
+				res := ir.Reach([]ir.Pt{ir.After(lc)}, ir.Opts{Stop: unlocks})
+				stale := false
+				for u := range res.Stopped {
+					if ir.Reach([]ir.Pt{ir.After(u)}, ir.Opts{}).Reached[in] {
+						stale = true
+					}
+				}
+				if stale {
+					r.Violated(key, p.InstrPos(in), "the size test len(buckets) >= maxBuckets is evaluated in an earlier critical section than the insertion (the mutex is released in between): concurrent misses on distinct hosts all see \"not full\", none evicts, all insert — the table ratchets past maxBuckets and never shrinks")
+					return
+				}
+			}
 			// on the true side evictLFU is called before the insertion
 			start := ir.EdgePt(bound.If.Block(), bound.EdgeWhen(true))
 			isEvict := func(x ssa.Instruction) bool {
@@ -720,4 +747,190 @@ func traversesWith(in ssa.Instruction, root ssa.Value, closeFn *ssa.Function) bo
 		}
 	})
 	return ok
+}
+
+func init() {
+	register(&core.Rule{ID: "R-BODY-DETACH", Props: []string{"C16"}, Doc: "a spooled body is only detached from its URL after it was closed: every `(*URL).SetBody(nil)` in module code is preceded on all paths by `Close()` on that URL's `GetBody()`, and the field URL.body is written by SetBody alone — the spooled temp file is removed by Close() only, and the post-processor's closeBody/closeBodies close only bodies that are still attached, so a body dropped with SetBody(nil) stays on disk for ever", Run: ruleBodyDetach})
+	register(&core.Rule{ID: "R-SEM-RELEASE", Props: []string{"C01", "C16", "C03"}, Doc: "the per-item fetch goroutine of archiver.archive gives its --max-concurrent-assets slot back on every exit: the receive from the semaphore channel (the channel archive() sends on before `go`) is deferred at the top of the goroutine, or every path from its entry to a return passes exactly one such receive; a leaked slot per retry-exhausted asset blocks the next `guard <-` for ever — the seed never leaves the archiver and Stop() hangs", Run: ruleSemRelease})
+}
+
+func ruleBodyDetach(r *core.Reporter) {
+	p := r.P
+	setBody := p.Func(rel(pkgModels), "(*URL).SetBody")
+	if setBody == nil {
+		r.Undecided("models.URL.SetBody", "", "anchor not found")
+		return
+	}
+	// who-may-write on URL.body
+	for _, fn := range p.ModFuncs {
+		if !core.InModule(fn) || fn == setBody {
+			continue
+		}
+		allInstrs(fn, func(in ssa.Instruction) {
+			if st, ok := in.(*ssa.Store); ok {
+				if tn, f, okf := ir.FieldOf(st.Addr); okf && tn == tURL && f == "body" {
+					if _, fresh := st.Addr.(*ssa.FieldAddr).X.(*ssa.Alloc); !fresh {
+						r.Violated(core.FuncName(fn)+"/body-store", p.InstrPos(in), "URL.body is written outside SetBody")
+					}
+				}
+			}
+		})
+	}
+	sites := 0
+	for _, fn := range p.ModFuncs {
+		if !core.InModule(fn) {
+			continue
+		}
+		fn := fn
+		allInstrs(fn, func(in ssa.Instruction) {
+			cc := ir.AsCall(in)
+			if cc == nil || cc.StaticCallee() != setBody || len(cc.Args) != 2 || !ir.IsNilConst(cc.Args[1]) {
+				return
+			}
+			sites++
+			r.Analysed(fn)
+			want := ir.Path(cc.Args[0]) + ".GetBody()"
+			closes := func(x ssa.Instruction) bool {
+				xc := ir.AsCall(x)
+				if xc == nil || !xc.IsInvoke() || xc.Method.Name() != "Close" {
+					return false
+				}
+				return ir.Path(xc.Value) == want
+			}
+			key := fmt.Sprintf("%s/detach#%d", core.FuncName(fn), sites)
+			if ir.Reach([]ir.Pt{ir.Entry(fn)}, ir.Opts{Stop: closes}).Reached[in] {
+				r.Violated(key, p.InstrPos(in), "the body is detached with SetBody(nil) on a path on which it was not closed: the spooled temp file (zeno-*) is only removed by Close(), and nothing can reach it any more — one file left in the temp dir per such document")
+			} else {
+				r.Held(key, 1, "SetBody(nil) only after %s.Close()", want)
+			}
+		})
+	}
+	if sites == 0 {
+		r.Held("module/no-detach", 0, "no SetBody(nil) in module code")
+	}
+}
+
+func ruleSemRelease(r *core.Reporter) {
+	p := r.P
+	arch := p.Func(rel(pkgArch), "archive")
+	if arch == nil {
+		r.Undecided("archiver.archive", "", "anchor not found")
+		return
+	}
+	r.Analysed(arch)
+	// semaphore channels: `chan struct{}` made in archive and sent on outside a select
+	var sems []ssa.Value
+	allInstrs(arch, func(in ssa.Instruction) {
+		snd, ok := in.(*ssa.Send)
+		if !ok {
+			return
+		}
+		switch x := ir.Strip(snd.Chan).(type) {
+		case *ssa.MakeChan:
+			sems = append(sems, x)
+		case *ssa.UnOp:
+			// captured by the goroutine's closure: the channel lives in a cell
+			if a, isA := x.X.(*ssa.Alloc); isA && x.Op == token.MUL {
+				sems = append(sems, a)
+			}
+		}
+	})
+	if len(sems) == 0 {
+		r.Held("archive/no-semaphore", 0, "archive() bounds its goroutines in another way")
+		return
+	}
+	for _, sem := range sems {
+		// goroutines started by archive that capture the channel
+		n := 0
+		allInstrs(arch, func(in ssa.Instruction) {
+			g, ok := in.(*ssa.Go)
+			if !ok {
+				return
+			}
+			mcl, ok := g.Call.Value.(*ssa.MakeClosure)
+			if !ok {
+				return
+			}
+			cf := mcl.Fn.(*ssa.Function)
+			idx := -1
+			for i, b := range mcl.Bindings {
+				if ir.Strip(b) == sem {
+					idx = i
+				}
+			}
+			if idx < 0 {
+				return
+			}
+			n++
+			r.Analysed(cf)
+			fv := cf.FreeVars[idx]
+			isRecvOf := func(f *ssa.Function, v ssa.Value) func(ssa.Instruction) bool {
+				return func(x ssa.Instruction) bool {
+					u, ok := x.(*ssa.UnOp)
+					if !ok || u.Op != token.ARROW {
+						return false
+					}
+					ch := ir.Strip(u.X)
+					if ch == v {
+						return true
+					}
+					// the free variable is the cell: the channel is loaded from it
+					if l, isL := ch.(*ssa.UnOp); isL && l.Op == token.MUL && l.X == v {
+						return true
+					}
+					return false
+				}
+			}
+			release := isRecvOf(cf, fv)
+			// deferred release: a Defer of a closure that receives from the same channel
+			deferred := func(x ssa.Instruction) bool {
+				d, ok := x.(*ssa.Defer)
+				if !ok {
+					return false
+				}
+				dm, ok := d.Call.Value.(*ssa.MakeClosure)
+				if !ok {
+					return false
+				}
+				df := dm.Fn.(*ssa.Function)
+				for i, b := range dm.Bindings {
+					if ir.Strip(b) == ssa.Value(fv) {
+						found := false
+						allInstrs(df, func(y ssa.Instruction) {
+							if isRecvOf(df, df.FreeVars[i])(y) {
+								found = true
+							}
+						})
+						if found {
+							return true
+						}
+					}
+				}
+				return false
+			}
+			key := core.FuncName(cf) + "/slot"
+			stop := func(x ssa.Instruction) bool { return release(x) || deferred(x) }
+			if ret, leak := ir.PathExists([]ir.Pt{ir.Entry(cf)}, ir.Opts{Stop: stop}, ir.IsExit); leak {
+				r.Violated(key, p.InstrPos(ret), "the fetch goroutine can return without giving its concurrency slot back (no receive from the semaphore on that path, none deferred): after --max-concurrent-assets such exits the next send on the semaphore in archive() blocks for ever")
+				return
+			}
+			// not twice: after an explicit release no second one is reachable
+			twice := false
+			allInstrs(cf, func(x ssa.Instruction) {
+				if release(x) {
+					if _, again := ir.PathExists([]ir.Pt{ir.After(x)}, ir.Opts{}, func(y ssa.Instruction) bool { return release(y) && y != x }); again {
+						twice = true
+					}
+				}
+			})
+			if twice {
+				r.Violated(key, fnPos(p, cf), "a path of the fetch goroutine receives from the semaphore twice: it steals the slot of another in-flight item")
+				return
+			}
+			r.Held(key, 1, "every exit of the fetch goroutine gives the slot back exactly once")
+		})
+		if n == 0 {
+			r.Held("archive/semaphore-not-captured", 0, "no goroutine of archive() captures the semaphore channel")
+		}
+	}
 }
